@@ -174,19 +174,63 @@ theorem value_clause_text (key : Str) (op : String) (tmpl : String) (s : Str)
 
 /-! ### resource tables -/
 
-/-- "every resource type listed in the translator's tables yields syntactically valid CEL" — the part
-decided here: every entry of every regenerated table has balanced `()[]{}` and closed string
-literals. Full statement (`∀ entry, (parse (lex entry)).isSome`) needs the grammar model; the rest is
-decided on every run by the real parser (check `tables_parse`). `glacier` (cross-account) is excluded:
-known finding `glacier_pinned`. -/
-theorem tables_are_cel_partial :
+/-- "every resource type listed in the translator's tables yields syntactically valid CEL": every
+entry of the six regenerated tables — bare, and inside the smallest clause its rewriter builds around
+it — lexes to a token string that the grammar model's parser accepts (`Cel.Grammar.parse ts = some e`;
+by `Cel.Props.C06.parse_sound` that is a derivation `Derives expr ts [toTree e]` of cel.lark's `expr`).
+The text-level lexer `XlateCel.lexCel` is this property's own model of lark's lexer on these texts
+(corresponded on every entry and on perturbed entries); the clauses for other filter shapes are
+parsed by the real parser on every run. `glacier` (cross-account) is excluded: known finding
+`glacier_pinned`. -/
+theorem tables_are_cel (table : String) (t : List (String × Str))
+    (ht : (table, t) ∈ [("age", XlateTables.ageAttr), ("security-group", XlateTables.sgAttr),
+      ("vpc", XlateTables.vpcAttr), ("kms-key", XlateTables.kmsAttr),
+      ("cross-account", XlateTables.crossAccount.filter (fun p => p.1 != "glacier")),
+      ("used", XlateTables.used), ("unused", XlateTables.used)]) :
+    ∀ p ∈ t, ∀ text ∈ [p.2, XlateCel.wrap table p.2],
+      ∃ ts e, XlateCel.lexCel text = some ts ∧ Cel.Grammar.parse ts = some e := by
+  have key : XlateCel.tableIsCel table t = true := by
+    have h := tables_cel_check
+    simp only [List.mem_cons, Prod.mk.injEq, List.mem_nil_iff, or_false] at ht
+    rcases ht with ⟨rfl, rfl⟩ | ⟨rfl, rfl⟩ | ⟨rfl, rfl⟩ | ⟨rfl, rfl⟩ | ⟨rfl, rfl⟩ | ⟨rfl, rfl⟩ | ⟨rfl, rfl⟩
+    · exact h.1
+    · exact h.2.1
+    · exact h.2.2.1
+    · exact h.2.2.2.1
+    · exact h.2.2.2.2.1
+    · exact h.2.2.2.2.2.1
+    · exact h.2.2.2.2.2.2
+  intro p hp text htext
+  have hp' := List.all_eq_true.1 key p hp
+  simp only [Bool.and_eq_true] at hp'
+  have hc : XlateCel.isCel text = true := by
+    simp only [List.mem_cons, List.mem_nil_iff, or_false] at htext
+    rcases htext with rfl | rfl
+    · exact hp'.1
+    · exact hp'.2
+  unfold XlateCel.isCel at hc
+  cases hl : XlateCel.lexCel text with
+  | none => simp [hl] at hc
+  | some ts =>
+    cases hpz : Cel.Grammar.parse ts with
+    | none => simp [hl, hpz] at hc
+    | some e => exact ⟨ts, e, rfl, hpz⟩
+
+/-- delimiter balance of every entry, independently of the grammar model -/
+theorem tables_balanced_all :
     allBalanced XlateTables.ageAttr = true ∧ allBalanced XlateTables.sgAttr = true ∧
     allBalanced XlateTables.vpcAttr = true ∧ allBalanced XlateTables.kmsAttr = true ∧
     allBalanced (XlateTables.crossAccount.filter (fun p => p.1 != "glacier")) = true ∧
     allBalanced XlateTables.used = true := tables_balanced
 
-/-- the excluded entry really is unbalanced (the finding is not vacuous) -/
-example : (XlateTables.crossAccount.filter (fun p => p.1 == "glacier")).all (fun p => !balanced p.2) = true := by
+/-- the excluded entry really is unbalanced and not CEL (the finding is not vacuous) -/
+example : (XlateTables.crossAccount.filter (fun p => p.1 == "glacier")).all
+    (fun p => !balanced p.2 && !XlateCel.isCel p.2 && !XlateCel.isCel (XlateCel.wrap "cross-account" p.2)) = true := by
+  decide +kernel
+/-- regression (D23): the entries the tables used to have are rejected -/
+example : XlateCel.isCel (lit "resource.SecurityGroups.map(sg, sg..SecurityGroupIdentifier.security_group())") = false ∧
+    XlateCel.isCel (lit "resource.BrokerNodeGroupInfo.SecurityGroups[.map(sg, sg.security_group())") = false ∧
+    XlateCel.isCel (lit "(resource[\"GroupId\"] in all_scan_groups() && has(resource.VpcId)") = false := by
   decide +kernel
 
 end Cel.Props.C19
